@@ -545,6 +545,19 @@ fn exec_many_inputs(n: usize, scheme: u8, seed: u64, obs: &mut Obs) -> Vec<Viola
     v
 }
 
+const FIXED_UNDECLARED: [(&[&str], &str); 10] = [
+    (&["in1", "IN1"], "In1"),
+    (&["total", "TOTAL", "ToTaL"], "Total"),
+    (&["ab", "AB", "aB"], "Ab"),
+    (&["in10", "in11", "in12"], "in1"),
+    (&["x ", " x", " x "], "x"),
+    (&["x", "X"], "x "),
+    (&["é", "É"], "e"),
+    (&["a", "b", "c", "d", "e", "f", "g", "h"], ""),
+    (&["value_1", "value_2", "value_3"], "value"),
+    (&["A", "B"], "a"),
+];
+
 const ODD_NAMES: [&str; 12] = ["x", "X", "in1", "IN1", "In1", "in10", "é", "É", "", " ", "x ", "xX"];
 
 fn rename_in_prog(p: &mut checks::vm::Prog, map: &std::collections::BTreeMap<String, String>) {
@@ -943,6 +956,28 @@ impl Check for C16 {
         }
         if run % 8000 == 4001 {
             return Sc::ManyInputs { n: g.log_uniform(8_000, 30_000), scheme: (run / 8000) as u8, seed: g.next_u64() };
+        }
+        if run % 4 == 3 && run / 4 < FIXED_UNDECLARED.len() as u64 {
+            // FIXED (the same under every seed): a program reads an input that is NOT declared while near misses
+            // of its name are (other case, a longer name, surrounding blanks) with different values. Whatever
+            // evaluation does then, it must do the same in every separately built state.
+            let (declared, read) = FIXED_UNDECLARED[(run / 4) as usize];
+            let init = VmInit {
+                caps: checks::vm::Caps { exec: 16, int: 16, float: 4, bool: 4 },
+                int: vec![7],
+                float: Vec::new(),
+                bool: Vec::new(),
+                program: vec![
+                    checks::vm::Prog::I(checks::vm::Ins::PushInt(5)),
+                    checks::vm::Prog::I(checks::vm::Ins::Input(read.to_string())),
+                    checks::vm::Prog::I(checks::vm::Ins::PushInt(6)),
+                ],
+                inputs: declared.iter().enumerate().map(|(i, n)| (n.to_string(), Lit::Int(10 + i as i64))).collect(),
+                limit: 100,
+                wrap: 0,
+                giant: 0,
+            };
+            return Sc::Push { init, perm_seed: g.next_u64() };
         }
         if run % 4 == 3 {
             let sc = vmgen::gen_scenario(g, Bias::Balanced);
